@@ -13,7 +13,10 @@ Expect(s, ev) ==
                  /\ ev.a_after = ev.a /\ ev.b_after = ev.b,
           why |-> "cmp: result"]
     [] ev.op = "utils.naf" ->
-         LET okShape == ev.panic = "" /\ Len(ev.out) = ev.n /\ U!DigitsShapeOK(ev.out, ev.w)
+         \* extra: the zeroed workspace was that much longer than n - the digits live in the first n places
+         LET extra == IF "extra" \in DOMAIN ev THEN ev.extra ELSE 0
+             okShape == /\ ev.panic = "" /\ Len(ev.out) = ev.n + extra /\ U!DigitsShapeOK(ev.out, ev.w)
+                        /\ \A i \in (ev.n + 1)..Len(ev.out) : ev.out[i] = 0
              okValue == okShape /\ U!DigitsValueOK(ev.out, ev.s)
          IN [st |-> s, ok |-> okShape /\ okValue /\ ev.s_after = ev.s,
              why |-> IF ~okShape THEN "naf: digit shape" ELSE "naf: weighted sum"]
